@@ -64,6 +64,10 @@ for target in ("jobdoc", "projdoc"):
 for cname in ("small", "64k", "first"):
     SCENARIOS.append({"target": "jobdoc", "content": cname, "how": "buffered"})
     SCENARIOS.append({"target": "projdoc", "content": cname, "how": "buffered"})
+for cname in ("small", "8k", "first"):
+    # whole-document assignment through the owner's property (job.document = ..., project.doc = ...)
+    SCENARIOS.append({"target": "jobdoc", "content": cname, "how": "assign"})
+    SCENARIOS.append({"target": "projdoc", "content": cname, "how": "assign"})
 for grow in ("first", "grow", "shrink", "grow-big"):
     SCENARIOS.append({"target": "cache", "content": grow, "how": "update_cache"})
 for name in ("plain", "my project"):
@@ -111,6 +115,11 @@ def make(case):
             doc = st["job"].document if target == "jobdoc" else st["p"].document
             if how == "reset":
                 doc.reset(new)
+            elif how == "assign":
+                if target == "jobdoc":
+                    st["job"].document = new
+                else:
+                    st["p"].doc = new
             elif how == "setitem":
                 # key-wise edits produce several complete writes; the last one equals `new`
                 for k in list(doc.keys()):
